@@ -453,6 +453,25 @@ def step(run, op):
                 new = concat(obj, other) if mode != 'list' else concat([obj, other])
                 run.add(new, Shadow(list(sh.rows) + list(sh2.rows), list(sh.conds)))
                 touched = (len(run.pool) - 1,)
+                # object-level descriptors holding ARRAYS that differ in some (not all) elements: after the concatenation
+                # every RDM still sees the value of the object it came from
+                a2, b2 = obj.copy(), other.copy()
+                roi_a, roi_b = np.array([10, 20, 30]), np.array([10, 25, 30])
+                a2.descriptors['roi'], b2.descriptors['roi'] = roi_a.copy(), roi_b.copy()
+                try:
+                    c2 = concat(a2, b2)
+                except Exception as exc:
+                    ctx.fail(op, dict(sig, what='raised', arg='array_descriptor'), f'concat of objects with array-valued '
+                             f'descriptors raised {exc!r}', hist())
+                    return False
+                ctx.case(op, dict(sig, arg='array_descriptor'))
+                for kk in range(c2.n_rdm):
+                    want_roi = roi_a if kk < a2.n_rdm else roi_b
+                    seen = c2.rdm_descriptors['roi'][kk] if 'roi' in c2.rdm_descriptors else c2.descriptors.get('roi')
+                    if seen is None or not np.array_equal(np.asarray(seen), want_roi):
+                        ctx.fail(op, dict(sig, what='descriptors', arg='array_descriptor'), f'after concat RDM {kk} carries '
+                                 f'roi {seen!r}, the object it came from had {want_roi.tolist()}', hist())
+                        return False
         elif op == 'copy':
             k = pick_obj(run)
             obj, sh = run.pool[k]
